@@ -57,8 +57,11 @@ func init() {
 			}
 			return runBlock(r, focus{prop: "C12", headerFaults: 0.01, txFaults: 0.01, permFaults: 0.1, failOps: 0.05, tightUnits: 0.5, bigCosts: 0.25, dupTx: 0.0, maxTxs: 6})
 		}})
-	register(&simk.Prop{ID: "C10", Level: "exploration", Rule: e2Rule + "; focus: expiry at t-1000, t, t+W, t+W+1000, misaligned, wrong chain id, action count at the limit +-1, activation ranges with -1 sentinels and boundary equalities", Real: e2Real, Stub: e2Stub,
+	register(&simk.Prop{ID: "C10", Level: "exploration", Rule: e2Rule + "; focus: expiry at t-1000, t, t+W, t+W+1000, misaligned, wrong chain id, action count at the limit +-1, activation ranges with -1 sentinels and boundary equalities, action counts far beyond the limit (255..528); 1/4 of the runs drive mempool admission (PreExecutor) through several submissions on one parent while the simulated clock advances (0 ms .. 61 s between submissions) and compare every verdict with the validity predicate at the current time", Real: e2Real, Stub: e2Stub,
 		Exec: func(r *simk.Run) *simk.Violation {
+			if r.C.Intn(4) == 0 {
+				return c10Admission(r)
+			}
 			return runBlock(r, focus{prop: "C10", headerFaults: 0.02, txFaults: 0.5, permFaults: 0.05, failOps: 0.05, tightUnits: 0.0, bigCosts: 0.0, dupTx: 0.0, maxTxs: 4})
 		}})
 	register(&simk.Prop{ID: "C11", Level: "exploration", Rule: e2Rule + "; focus: header mutations (height, timestamp around parent+gap / parent+emptyGap / now+FutureBound, stale state root) on arbitrary parents; 1/8 of the runs verify children of the real genesis block (chain.NewGenesisCommit) at timestamps around the genesis block's own timestamp", Real: e2Real, Stub: e2Stub,
